@@ -2,7 +2,10 @@
 (* code -> spec for C05.  A trace = header (dataclass registry schema, base64 facts) exported from the
    running code + events recorded from the real library:
 
-     RoundTrip  v   = projection of a live object x (hand-built from TLC's templates, or extracted)
+     RoundTrip  v   = projection of a live object x (hand-built from TLC's templates, or extracted; every
+                      BytesIO carries the position the stream stands at when to_json is called -- the
+                      templates enumerate start/mid/end, extracted results are also replayed after
+                      their streams were read to the end / to the middle)
                 j   = json.loads(json.dumps(x.to_json()))            ("error" if the encoder raised)
                 out = ExtractionInterface.from_json(j) projected     ("error" if it raised)
                 nb  = json.loads(json.dumps(serialize_extraction(x, include_binary=False)))
@@ -12,6 +15,8 @@
                 out  = tag of the value the extractor stored for it in sheet.data
      Cli        mode, n = number of results, top/inner = JSON type of stdout's top level / its items,
                 eq = stdout equals the library's JSON for the same results
+     CliItem    one result (--json) / unit (--json-unit) of the CLI's stdout with the object it came from
+                (multi-result inputs: archives of documents with images, and small single results)
 
    Constant Accept = "law":     the event must satisfy the property (Serial!Prop_* stated on the
                                 observations; the wire format itself is not demanded -- only that
@@ -79,8 +84,16 @@ TraceCli == /\ IsEvent("Cli")
             /\ Ev.top = CliTop(Ev.mode, Ev.n)
             /\ Ev.inner \in {CliInner(Ev.mode, Ev.n), "-"}           \* "-": no item to look at
 
+\* one item of the CLI's output (a result for --json, a unit for --json-unit) against the object it was
+\* made from: v = projection of the result / unit, j = its complete library JSON (binary included),
+\* cli = what the CLI printed for it.  With --binary the CLI prints exactly j; without it exactly the binary
+\* leaves are null -- per result and per unit, whatever the number of results.
+TraceCliItem == /\ IsEvent("CliItem")
+                /\ JsonOK(Ev.cli)
+                /\ IF Ev.binary THEN Ev.cli = Ev.j ELSE ExclOK(Ev.v, Ev.j, Ev.cli)
+
 TraceInit == tid \in 1..Len(Traces) /\ l = 1 /\ E = EnvOf(Traces[tid].hdr)
-TraceNext == TraceRoundTrip \/ TraceCell \/ TraceCli
+TraceNext == TraceRoundTrip \/ TraceCell \/ TraceCli \/ TraceCliItem
 TraceSpec == TraceInit /\ [][TraceNext]_vars
 
 TraceAccept ==
